@@ -1014,11 +1014,11 @@ VSdetach(int32 vkey /* IN: vdata key? */)
             if (Hendaccess(vs->aid) == FAIL)
                 HGOTO_ERROR(DFE_INTERNAL, FAIL);
             vs->aid = FAIL;
-
-            /* remove from atom list */
-            if (HAremove_atom(vkey) == NULL)
-                HGOTO_ERROR(DFE_INTERNAL, FAIL);
         } /* end if */
+
+        /* every attach registered its own key: remove this one from atom list */
+        if (HAremove_atom(vkey) == NULL)
+            HGOTO_ERROR(DFE_INTERNAL, FAIL);
 
         /* we are done */
         HGOTO_DONE(SUCCEED);
